@@ -564,6 +564,44 @@ R20.6 exit status: ErrNoNewVersion maps to the distinct non-zero code, any other
 	}
 	c.Check(okNoNewCode && code != 0 && code != 1, "R20.6", "NewTagCmd|nothing-to-do-status", r.Pos(ntc.Pos()), fmt.Sprintf("ErrNoNewVersion -> exit %d", code), "ErrNoNewVersion is not mapped to a distinct non-zero exit status")
 	c.Check(okOther, "R20.6", "NewTagCmd|error-status", r.Pos(ntc.Pos()), "other errors -> exit 1", "other errors do not exit with status 1")
+	// ---- R20.3/R20.4: no error observed anywhere in the tool is swallowed (an error while reading the
+	// existing tags would make the maximum too small and let an older version be tagged)
+	for _, fd := range pkgFuncDecls(p) {
+		errorPaths(c, r, "R20.3", p, fd, c20Fallbacks)
+		// the one conditional fallback: a tag without a tag object is a lightweight tag. A path that saw
+		// TagObject fail and goes on must have identified the error as ErrObjectNotFound.
+		for _, rg := range regionsOf(fd) {
+			if rg.kind != "funclit" {
+				continue
+			}
+			d := newDT(info)
+			d.paths = nil
+			d.stmts(seedEnv(d, fd), rg.list, func(q *dtPath) { d.finish(q, "end") })
+			for _, q := range d.paths {
+				failed, notFound := false, false
+				for _, a := range q.Atoms {
+					if strings.Contains(a.Expr, ".TagObject<") && strings.HasSuffix(a.Expr, "#1 == nil") && !a.Val {
+						failed = true
+					}
+					if strings.Contains(a.Expr, "ErrObjectNotFound") && a.Val {
+						notFound = true
+					}
+				}
+				if !failed {
+					continue
+				}
+				errLast := returnsErrorLast(info, rg.pos.(*ast.FuncLit).Type)
+				c.Check(notFound || failingExit(info, q, errLast), "R20.4", "largestTagSemver|tag-object-error", r.Pos(rg.pos.Pos()), "a TagObject error other than ErrObjectNotFound is returned", "a path on which TagObject failed with something other than ErrObjectNotFound goes on or reports success: the tag is left out of the maximum and an older version can be tagged: "+q.String())
+			}
+		}
+	}
+}
+
+// c20Fallbacks: observed errors after which the tagger legitimately continues.
+var c20Fallbacks = map[string]string{
+	"github.com/vektra/mockery/tools/cmd.Tagger.createTag|ARG0.DeleteTag<(github.com/go-git/go-git/v5.Repository).DeleteTag>(v) == nil":                                                                          "deleting a tag that does not exist yet fails; the tag is created next and that error is returned",
+	"github.com/vektra/mockery/tools/cmd.Tagger.largestTagSemver|ARG0.TagObject<(github.com/go-git/go-git/v5.Repository).TagObject>(ref.Hash<(github.com/go-git/go-git/v5/plumbing.Reference).Hash>())#1 == nil": "lightweight tags have no tag object (ErrObjectNotFound); every other error is held to R20.4 tag-object-error",
+	"github.com/vektra/mockery/tools/cmd.printStack|ARG0 == nil": "prints the error it was given; the caller exits non-zero",
 }
 
 // rangeOverLit: fd contains `for ... := range []T{a, b}` with exactly these identifiers.
